@@ -257,6 +257,8 @@ def register_dataclass_type_with_jax_tree_util(data_class):
 
     def is_static(value):
         # python scalars (dimensions) and callables (control functions) are structure, not data
+        if dataclasses.is_dataclass(value):
+            return False  # library objects are callable, but they are pytrees themselves
         return isinstance(value, (int, str)) or callable(value)
 
     def flatten(d):
